@@ -244,6 +244,11 @@ func GenInputCase(t *rapid.T) (*Case, *InputMutation) {
 		}
 	}
 	kinds := []string{"unknown-field", "wrong-type"}
+	if len(prog.Input) >= 2 {
+		// (an object with a single property accepts that property's value in its place, so only
+		// schemas with several fields refuse every non-map document)
+		kinds = append(kinds, "non-map-document")
+	}
 	if len(required) > 0 {
 		kinds = append(kinds, "missing-required")
 	}
@@ -267,6 +272,12 @@ func GenInputCase(t *rapid.T) (*Case, *InputMutation) {
 	}
 	mut.Kind = rapid.SampledFrom(kinds).Draw(t, "mutation")
 	switch mut.Kind {
+	case "non-map-document":
+		mut.Field = "(whole document)"
+		if c.Extra == nil {
+			c.Extra = map[string]any{}
+		}
+		c.Extra["raw_input"] = rapid.SampledFrom([]any{"junk", int64(5), []any{int64(1), int64(2)}, true, 2.5}).Draw(t, "mut.rawdoc")
 	case "unknown-field":
 		mut.Field = "no_such_field"
 		c.InputDoc["no_such_field"] = int64(1)
